@@ -33,6 +33,7 @@ type LoopContract struct {
 	Line    int
 	Havoc   []string // extra cells to havoc (rare)
 	Lemmas  []*Clause
+	Splits  []*Clause
 }
 
 type FuncContract struct {
@@ -45,6 +46,7 @@ type FuncContract struct {
 	Loops    []*LoopContract
 	Laws     []*Clause
 	Lemmas   []*Clause
+	Splits   []*Clause
 	Inline   bool // never use the contract at call sites; inline the body (only loop-free)
 	Trusted  bool // contract assumed, body not verified (listed in evidence)
 	Pure     bool // no heap writes at all
@@ -52,7 +54,7 @@ type FuncContract struct {
 	File     string
 }
 
-var kwRe = regexp.MustCompile(`^(func|requires|ensures|invariant|decreases|modifies|loop|law|lemma|unroll|inline|trusted|pure|havoc)\b`)
+var kwRe = regexp.MustCompile(`^(func|requires|ensures|invariant|decreases|modifies|loop|law|lemma|unroll|inline|trusted|pure|havoc|split)\b`)
 var tagRe = regexp.MustCompile(`^\[([A-Za-z0-9_, ]+)\]`)
 var labelRe = regexp.MustCompile(`^"([^"]*)"\s*:`)
 
@@ -132,6 +134,14 @@ func parseContracts(file string, src []byte) ([]*FuncContract, error) {
 				curLoop.Lemmas = append(curLoop.Lemmas, cl)
 			} else {
 				cur.Lemmas = append(cur.Lemmas, cl)
+			}
+		case "split":
+			if curLoop != nil {
+				cl.Ord = len(curLoop.Splits) + 1
+				curLoop.Splits = append(curLoop.Splits, cl)
+			} else {
+				cl.Ord = len(cur.Splits) + 1
+				cur.Splits = append(cur.Splits, cl)
 			}
 		case "inline":
 			cur.Inline = true
